@@ -340,6 +340,10 @@ func init() {
 				"RPC answers come from the real application's Query on a committed state; executor and keyring are in-process fakes",
 				"persistent failure of the request or data-source-hash query is outside the alphabet (the daemon cannot know the request then)",
 			}
+			if b, err := os.ReadFile(filepath.Join(os.Getenv("VERIF_BUILD"), "race-C19.out")); err == nil && !quick {
+				lines := strings.Split(strings.TrimSpace(string(b)), "\n")
+				r.Notes = append(r.Notes, "free-running -race pass of the same harness bodies (run by bin/check before this run): "+lines[len(lines)-1])
+			}
 			deadline := r.Deadline(6*time.Minute, 45*time.Minute)
 			scs := []gosched.Scenario{
 				scenario("one-request-short-and-long-executable", []string{"A"}, 3),
